@@ -85,6 +85,7 @@ def approx_histories():
     H["approx-tighten"] = [("add", 0, [A]), ("aeval", 0, "x+1", 9, []), ("add", 0, ["x<=K1"]), ("aeval", 0, "x+1", 9, []), ("amax", 0, "x+1", False, [])]
     H["approx-branch"] = [("add", 0, [A]), ("aeval", 0, "x", 9, []), ("branch", 0, 1), ("add", 1, ["x>=K1"]), ("aeval", 1, "x", 9, []), ("aeval", 0, "x", 9, []), ("amin", 0, "x", False, [])]
     H["approx-pickle-tighten"] = [("add", 0, [A]), ("aeval", 0, "x+1", 9, []), ("pickle", 0), ("add", 0, ["x<=K1"]), ("aeval", 0, "x+1", 9, []), ("amax", 0, "x+1", False, []), ("aeval", 0, "x", 9, [])]
+    H["approx-pickle-bounds"] = [("add", 0, [A]), ("add", 0, ["x>=K1"]), ("aeval", 0, "x", 9, []), ("pickle", 0), ("aeval", 0, "x", 9, []), ("add", 0, ["x!=K2"]), ("aeval", 0, "x", 9, []), ("amax", 0, "x", False, [])]
     H["approx-merge"] = [("branch", 0, 1), ("add", 0, [A]), ("add", 1, ["x>=K1"]), ("aeval", 0, "x", 9, []), ("merge", 0, [1], ["b", "!b"], 2), ("aeval", 2, "x", 9, []), ("asolution", 2, "x", 2, []), ("asat", 2, [])]
     H["approx-unsat"] = [("add", 0, [A]), ("add", 0, ["x>K2"]), ("asat", 0, []), ("add", 0, ["y<=K2"]), ("asat", 0, [])]
     return H
@@ -136,6 +137,17 @@ def merge_histories():
                                          ("eval", 2, "y", 2, []), ("combine", 0, [1, 2], 3), ("sat", 3, []), ("eval", 3, "y", 9, [])]
     H["combine-three-others-overlap-eq"] = [("branch", 0, 1), ("branch", 0, 2), ("add", 0, [A]), ("add", 1, ["y==K1"]), ("add", 2, ["y!=K1"]), ("eval", 0, "x", 2, []), ("eval", 1, "y", 2, []),
                                             ("eval", 2, "y", 2, []), ("combine", 0, [1, 2], 3), ("sat", 3, []), ("eval", 3, "y", 2, [])]
+    # only the receiver has been queried (has cached models); the other solver's constraints must still bind the combination
+    H["combine-unsolved-other"] = [("branch", 0, 1), ("add", 0, [A]), ("add", 1, ["y>=K0"]), ("eval", 0, "x", 2, []), ("combine", 0, [1], 2), ("eval", 2, "y", 9, []), ("min", 2, "y", False, [])]
+    H["combine-unsolved-middle"] = [("branch", 0, 1), ("branch", 0, 2), ("add", 0, ["x==K0"]), ("add", 1, ["y>=K0"]), ("add", 2, ["z<=K0"]), ("eval", 2, "z", 2, []), ("combine", 0, [1, 2], 3), ("eval", 3, "y", 9, []),
+                                   ("sat", 3, ["y!=K1"])]
+    H["merge-three-first-two-share-constraint"] = [("branch", 0, 1), ("branch", 0, 2), ("add", 0, [A, "y==K1"]), ("add", 1, [A, "y<=K2"]), ("add", 2, ["y!=K1"]), ("merge", 0, [1, 2], ["b", "!b", "z==K2"], 3),
+                                                   ("eval", 3, "x", 9, []), ("sat", 3, ["x>K2"])]
+    # a concrete False among the constraints (kept as a flag by SolverComposite): derived solvers must still be unsatisfiable
+    H["false-then-split"] = [("add", 0, [A]), ("add", 0, ["false"]), ("sat", 0, []), ("split", 0, 10)]
+    H["false-then-combine"] = [("branch", 0, 1), ("add", 0, [A]), ("add", 0, ["false"]), ("add", 1, ["y<=K2"]), ("combine", 0, [1], 2), ("sat", 2, [])]
+    H["false-then-merge"] = [("branch", 0, 1), ("add", 0, [A]), ("add", 0, ["false"]), ("add", 1, ["x>=K1"]), ("merge", 0, [1], ["b", "!b"], 2), ("sat", 2, ["b"]), ("eval", 2, "x", 9, [])]
+    H["merge-unsat-shared-child"] = [("add", 0, [A, "x>K2"]), ("branch", 0, 1), ("branch", 0, 2), ("add", 1, ["y==K1"]), ("add", 2, ["y<=K2"]), ("merge", 1, [2], ["b", "!b"], 3), ("sat", 3, []), ("sat", 3, ["b"])]
     H["split-two-groups"] = [("add", 0, [A, "y<=K2", "x!=K2"]), ("eval", 0, "x", 2, []), ("split", 0, 10), ("sat", 0, [])]
     H["split-connected"] = [("add", 0, [A, "y<=K2", "x==y"]), ("split", 0, 10)]
     H["split-three"] = [("add", 0, [A, "y<=K2", "z==K2", "y==z"]), ("eval", 0, "x", 2, []), ("split", 0, 10)]
@@ -241,7 +253,7 @@ PROPS = {
 
 # histories whose point is lost with 1-bit variables (a range constraint over one bit is rewritten to an equality, and two contradicting
 # equalities are caught by the pairwise shortcut before the code under test is reached)
-NEEDS_TWO_BITS = {"combine-three-others-overlap"}
+NEEDS_TWO_BITS = {"combine-three-others-overlap", "combine-unsolved-other", "combine-unsolved-middle"}
 
 
 def obligations(prop, tier):
